@@ -283,8 +283,10 @@ def rule_f(res: Results, idx: Index) -> None:
             du = None
             origins = [st for st in walk_no_nested(fi.node) if isinstance(st, ast.Assign) and len(st.targets) == 1 and isinstance(st.targets[0], ast.Name)
                        and isinstance(st.value, ast.Call) and ("origin" in (call_name(st.value) or "").lower()) and "origin" in st.targets[0].id.lower()]
+            origins += [w for w in walk_no_nested(fi.node) if isinstance(w, ast.NamedExpr) and isinstance(w.target, ast.Name) and isinstance(w.value, ast.Call)
+                        and "origin" in (call_name(w.value) or src(w.value.func, 80)).lower() and "origin" in w.target.id.lower()]
             for ost in origins:
-                oname = ost.targets[0].id  # type: ignore[union-attr]
+                oname = ost.target.id if isinstance(ost, ast.NamedExpr) else ost.targets[0].id  # type: ignore[union-attr]
                 loop = next((p for p in _parents(ost) if isinstance(p, (ast.For, ast.While))), None)
                 if loop is None:
                     continue
